@@ -100,8 +100,11 @@ Definition enumerated_sites : list (string * string * N) := [
   ("wbxml_tree_clb_xml.c", "wbxml_tree_clb_xml_end_element", 1)
 ].
 
+(* a (file, function, number of allocation call sites) of the current sources is covered by a classified entry b of
+   the same function when it has NO MORE call sites than b had when it was classified: merging duplicated call sites
+   (a refactoring) keeps the classification, a new call site in a known function or any unknown function does not *)
 Definition site_eqb (a b : string * string * N) : bool :=
-  String.eqb (fst (fst a)) (fst (fst b)) && String.eqb (snd (fst a)) (snd (fst b)) && N.eqb (snd a) (snd b).
+  String.eqb (fst (fst a)) (fst (fst b)) && String.eqb (snd (fst a)) (snd (fst b)) && N.leb (snd a) (snd b).
 Definition site_covered (s : string * string * N) : bool :=
   existsb (site_eqb s) modelled_sites || existsb (site_eqb s) enumerated_sites.
 Definition sites_covered (l : list (string * string * N)) : bool := forallb site_covered l.
